@@ -14,8 +14,11 @@ package config
 //@ pred docPool(c *Config) := c.LoadBalancer.WebSocketPool.Enabled ==> c.LoadBalancer.WebSocketPool.MaxIdle >= 0 && c.LoadBalancer.WebSocketPool.MaxActive >= 0
 //@      && (c.LoadBalancer.WebSocketPool.MaxActive > 0 ==> c.LoadBalancer.WebSocketPool.MaxIdle <= c.LoadBalancer.WebSocketPool.MaxActive)
 //@      && c.LoadBalancer.WebSocketPool.IdleTimeoutSeconds >= 0
+// (C18 "starts a working proxy": the probe path becomes the path of the probe URL - with a query or fragment in it the
+// probe misses the endpoint and every backend is ejected by the first round)
+//@ pred plainPath(p string) := !contains(p, "?") && !contains(p, "#")
 //@ pred docHealth(c *Config) := (c.HealthChecks.Active.Enabled ==> c.HealthChecks.Active.Interval > 0 && c.HealthChecks.Active.Timeout > 0
-//@         && c.HealthChecks.Active.Timeout < c.HealthChecks.Active.Interval && c.HealthChecks.Active.Path != "")
+//@         && c.HealthChecks.Active.Timeout < c.HealthChecks.Active.Interval && c.HealthChecks.Active.Path != "" && plainPath(c.HealthChecks.Active.Path))
 //@      && (c.HealthChecks.Passive.Enabled ==> c.HealthChecks.Passive.UnhealthyThreshold > 0 && c.HealthChecks.Passive.UnhealthyTimeout > 0)
 //@ pred docRateLimit(c *Config) := c.RateLimit.Enabled ==> c.RateLimit.MaxTokens > 0 && c.RateLimit.RefillRate > 0
 // circuit breaker: positive thresholds/durations; max_requests is a count (0 = default 1) and must allow
